@@ -395,6 +395,15 @@ def case_mode(case) -> Optional[str]:
 
 def invoke(oracle: Callable[[Any], None], case: Any, mode: Optional[str] = None):
     """Run an oracle in the logging mode the case is tagged with (or ``mode``), restoring the previous mode afterwards."""
+    calls = case_prelude(case)
+    if calls:
+        case = untagged(case)
+        _invoke_in_mode(oracle, case, mode)  # the plain evaluation the tagged one followed; must hold
+        run_prelude_calls(calls)
+    return _invoke_in_mode(oracle, case, mode)
+
+
+def _invoke_in_mode(oracle, case, mode):
     want = mode or case_mode(case) or "OFF"
     prev = _LOGGING_MODE[0]
     if want == prev:
@@ -408,6 +417,122 @@ def invoke(oracle: Callable[[Any], None], case: Any, mode: Optional[str] = None)
 
 def tag_debug(case):
     return dict(case, _logging="DEBUG") if isinstance(case, dict) else case
+
+
+# ----------------------------------------------------------------------------------------------
+# Preludes: "X, something unrelated, X again" (lesson of seeded round 7)
+#
+# Every oracle judges its case in a process whose earlier history consists of other cases of the same sub-check only.
+# State that some *other* entry point of the library leaves behind - a memo keyed too widely and filled by a sibling code
+# (Hamming(15,11,3) / (16,11,4)), a shared register left dirty by a call that was rightly refused, the state machine of a
+# decoder that the encoder re-uses, an enum singleton that remembers the last unassigned value - can therefore never
+# reach it.  Every PRELUDE_EVERY-th case that held (at most PRELUDE_CAP per driver call and process) is judged again after a
+# *prelude*: a few calls into the library that have nothing to do with the case.  The calls are plain JSON:
+#   {"e": <entry of the C19 catalogue>, "a": <arguments>}   valid, rejected and unusual calls of all 113 public codec
+#                                                           entry points (props/c19.py; vp.purity runs them)
+#   {"x": <name>, "a": <arguments>}                         an operation the property module offers (PRELUDE_OPS), usually
+#                                                           a sibling entry point applied to values taken from the case;
+#                                                           module.prelude_for(sub, case, rng) returns such calls
+# A prelude is stimulus only: whatever its calls return or raise is ignored.  A failure after a prelude is recorded with the
+# case tagged {"_prelude": [calls of this process so far, most recent PRELUDE_LOG_MAX]}; the replay of a tagged case judges
+# the untagged case once (it must hold - otherwise that failure is reported), runs the calls, and judges it again.  A plain
+# failure that occurs after preludes ran in the process gets the same tag, because the state they left may be its cause.
+# On the unchanged tree a prelude can only make a case fail if the library really carries state from an unrelated call
+# into the judged one, which is a violation of the property for that history (and of C19).  C19 itself is exempt: its oracles
+# run in separate interpreters.
+
+PRELUDE_EVERY = int(os.environ.get("VP_PRELUDE_EVERY", "8"))
+PRELUDE_LEN = int(os.environ.get("VP_PRELUDE_LEN", "4"))
+PRELUDE_CAP = int(os.environ.get("VP_PRELUDE_CAP", "150"))
+PRELUDE_LOG_MAX = 48
+_PRELUDE_POOL: Optional[List[dict]] = None
+_PRELUDE_LOG: List[dict] = []
+_PRELUDE_MODULE = [None]
+
+
+def prelude_pool() -> List[dict]:
+    """Deterministic pool of unrelated library calls: canonical, rejected and unusual calls of every C19 catalogue entry."""
+    global _PRELUDE_POOL
+    if _PRELUDE_POOL is None:
+        import importlib
+
+        from . import purity
+
+        importlib.import_module("props.c19")
+        pool: List[dict] = []
+        for eid in sorted(purity.CATALOGUE):
+            e = purity.CATALOGUE[eid]
+            if e.no_scribble:
+                continue
+            pool += [{"e": c["e"], "a": c["a"]} for c in purity.canonical_calls(e)]
+            pool += [{"e": c["e"], "a": c["a"]} for c in purity.reject_candidates(e)[:8]]
+            pool += [{"e": c["e"], "a": c["a"]} for c in purity.unusual_candidates(e)[:4]]
+        _PRELUDE_POOL = pool
+    return _PRELUDE_POOL
+
+
+def run_prelude_calls(calls: List[dict], module=None):
+    """Execute prelude calls in this process; results and exceptions are ignored (stimulus only)."""
+    from . import purity
+
+    import contextlib
+    import warnings
+
+    module = module or _PRELUDE_MODULE[0]
+    prelude_pool()
+    with open(os.devnull, "w") as sink, contextlib.redirect_stderr(sink), contextlib.redirect_stdout(sink), warnings.catch_warnings():
+        warnings.simplefilter("ignore")
+        _run_prelude_calls(calls, module)
+
+
+def _run_prelude_calls(calls: List[dict], module):
+    from . import purity
+
+    for c in calls:
+        try:
+            if "e" in c:
+                e = purity.CATALOGUE.get(c["e"])
+                if e is not None:
+                    purity._run_one(e, c["a"], representation=c.get("r"))
+            elif "x" in c:
+                op = getattr(module, "PRELUDE_OPS", {}).get(c["x"])
+                if op is not None:
+                    op(c.get("a"))
+        except (KeyboardInterrupt, SystemExit, MemoryError):
+            raise
+        except BaseException:
+            pass
+        _PRELUDE_LOG.append(c)
+    del _PRELUDE_LOG[:-PRELUDE_LOG_MAX]
+
+
+def choose_prelude(ctx, sub: str, case, key: bytes) -> List[dict]:
+    """The prelude of a case: calls the module derives from the case (siblings on the same values) followed by generic ones."""
+    import random
+
+    rng = random.Random(key)
+    calls: List[dict] = []
+    pf = getattr(ctx.module, "prelude_for", None)
+    if pf is not None:
+        try:
+            calls += [jsonable(c) for c in (pf(sub, case, rng) or [])]
+        except Exception:
+            raise HarnessError(f"{ctx.prop}.prelude_for failed on {sub}:\n{traceback.format_exc()}")
+    pool = prelude_pool()
+    calls += [pool[rng.randrange(len(pool))] for _ in range(PRELUDE_LEN)]
+    return calls
+
+
+def case_prelude(case):
+    return case.get("_prelude") if isinstance(case, dict) else None
+
+
+def tag_prelude(case):
+    return dict(case, _prelude=list(_PRELUDE_LOG)) if isinstance(case, dict) and _PRELUDE_LOG else case
+
+
+def untagged(case):
+    return {k: v for k, v in case.items() if k != "_prelude"} if isinstance(case, dict) and "_prelude" in case else case
 
 
 # ----------------------------------------------------------------------------------------------
@@ -431,6 +556,7 @@ class Ctx:
         self.tier = tier
         self.seed = seed
         self.module = module
+        _PRELUDE_MODULE[0] = module
         self.tally = Tally()
         self.findings = Findings()
         self.predicates: Dict[str, Callable] = getattr(module, "PREDICATES", {})
@@ -480,24 +606,33 @@ class Ctx:
         """Run an oracle on one case (enumeration drivers).  Returns True when it held or is a known finding.  Every
         DEBUG_EVERY-th case that held is judged once more with debug logging effective (see set_logging_mode)."""
         held = self._run_once(sub, oracle, case, tally)
-        if held and DEBUG_EVERY and case_mode(case) is None:
+        if held and case_mode(case) is None and case_prelude(case) is None:
             self._n_run_case = getattr(self, "_n_run_case", 0) + 1
-            if self._n_run_case % DEBUG_EVERY == 0:
-                t = tally if tally is not None else self.tally
+            t = tally if tally is not None else self.tally
+            if DEBUG_EVERY and self._n_run_case % DEBUG_EVERY == 0:
                 t.extra["cases_rejudged_with_debug_logging"] = t.extra.get("cases_rejudged_with_debug_logging", 0) + 1
                 return self._run_once(sub, oracle, case, tally, mode="DEBUG")
+            if self.prelude_enabled and self._n_run_case % PRELUDE_EVERY == PRELUDE_EVERY // 2 and getattr(self, "_n_prelude", 0) < PRELUDE_CAP:
+                self._n_prelude = getattr(self, "_n_prelude", 0) + 1
+                t.extra["cases_rejudged_after_prelude"] = t.extra.get("cases_rejudged_after_prelude", 0) + 1
+                run_prelude_calls(choose_prelude(self, sub, case, digest([sub, jsonable(case)])), self.module)
+                return self._run_once(sub, oracle, case, tally)
         return held
+
+    @property
+    def prelude_enabled(self) -> bool:
+        return bool(PRELUDE_EVERY) and self.prop != "C19" and not getattr(self.module, "NO_PRELUDE", False)
 
     def _run_once(self, sub, oracle, case, tally, mode: Optional[str] = None) -> bool:
         try:
             invoke(oracle, case, mode)
             return True
         except Fail as f:
-            return self.judge(sub, tag_debug(case) if mode == "DEBUG" else case, f, tally) is not None
+            return self.judge(sub, tag_prelude(tag_debug(case) if mode == "DEBUG" else case), f, tally) is not None
         except Exception as e:
             if lib_raised(e):
                 f = Fail("no_unexpected_exception", observed=f"{type(e).__name__}: {e}", expected="no exception", klass=exc_klass(e))
-                return self.judge(sub, tag_debug(case) if mode == "DEBUG" else case, f, tally) is not None
+                return self.judge(sub, tag_prelude(tag_debug(case) if mode == "DEBUG" else case), f, tally) is not None
             raise
 
     # -- sharding --------------------------------------------------------------------------
@@ -531,6 +666,7 @@ class Ctx:
 
         t = tally if tally is not None else self.tally
         tolerated: set = set()
+        picked: set = set()  # digests of the cases judged again after a prelude (an example is judged the same way every time)
         phases = [Phase.explicit, Phase.reuse, Phase.generate, Phase.target] + ([Phase.shrink] if shrink else [])
         for rnd in range(max_rounds):
             def once(case, mode=None):
@@ -558,6 +694,16 @@ class Ctx:
                         fail = once(case, "DEBUG")
                         if fail is not None:
                             case = tag_debug(case)
+                if fail is None and self.prelude_enabled and case_prelude(case) is None:
+                    try:
+                        d = digest([sub, jsonable(case)])
+                    except Exception:
+                        d = None
+                    if d is not None and d[1] % PRELUDE_EVERY == 0 and (d in picked or len(picked) < PRELUDE_CAP):
+                        picked.add(d)
+                        t.extra["cases_rejudged_after_prelude"] = t.extra.get("cases_rejudged_after_prelude", 0) + 1
+                        run_prelude_calls(choose_prelude(self, sub, case, d), self.module)
+                        fail = once(case)
                 if fail is None:
                     if record is not None:
                         record(case, t)
@@ -565,6 +711,8 @@ class Ctx:
                         t.case(sub)
                     return
                 # failing case
+                if case_prelude(case) is None:
+                    case = tag_prelude(case)
                 t.case(sub, cls="failing")
                 bucket = f"{sub}|{fail.clause}|{fail.klass}"
                 if bucket in tolerated:
@@ -640,7 +788,7 @@ class Ctx:
             except Fail as f:
                 case, fmin = f.case, f
                 if use_ddmin and isinstance(f.case, dict) and isinstance(f.case.get("ops"), list):
-                    ops, f2 = ddmin_ops(oracle, f.case["ops"], f.clause, f.klass, budget=ddmin_budget, mode=case_mode(f.case))
+                    ops, f2 = ddmin_ops(oracle, f.case["ops"], f.clause, f.klass, budget=ddmin_budget, mode=case_mode(f.case), prelude=case_prelude(f.case))
                     if f2 is not None:
                         case, fmin = dict(f.case, ops=ops), f2
                 self.judge(sub, case, fmin, t)
@@ -652,10 +800,10 @@ class Ctx:
             break
 
 
-def _judge_ops(oracle, ops, mode: Optional[str] = None):
+def _judge_ops(oracle, ops, mode: Optional[str] = None, prelude: Optional[List[dict]] = None):
     """Run a history oracle; return the Fail it raises (library exceptions converted), else None."""
     try:
-        invoke(oracle, {"ops": ops}, mode)
+        invoke(oracle, {"ops": ops, "_prelude": prelude} if prelude else {"ops": ops}, mode)
     except Fail as f:
         return f
     except Exception as e:
@@ -665,7 +813,7 @@ def _judge_ops(oracle, ops, mode: Optional[str] = None):
     return None
 
 
-def ddmin_ops(oracle, ops: list, clause: str, klass: str, budget: int = 600, mode: Optional[str] = None):
+def ddmin_ops(oracle, ops: list, clause: str, klass: str, budget: int = 600, mode: Optional[str] = None, prelude: Optional[List[dict]] = None):
     """Deterministic delta debugging of an op list: smallest sub-sequence (by chunk removal, then single removal) on which
     ``oracle`` still fails with the same (clause, klass).  Returns (ops, Fail) or (ops, None) when the original history does
     not reproduce outside the machine."""
@@ -673,7 +821,7 @@ def ddmin_ops(oracle, ops: list, clause: str, klass: str, budget: int = 600, mod
 
     def fails(cand):
         calls[0] += 1
-        f = _judge_ops(oracle, cand, mode)
+        f = _judge_ops(oracle, cand, mode, prelude)
         return f if (f is not None and f.clause == clause and f.klass == klass) else None
 
     cur = list(ops)
@@ -714,6 +862,8 @@ def _shard_entry(item):
     t = Tally()
     if _SHARD_CTX is not None:
         _SHARD_CTX._n_run_case = 0  # which cases get the additional debug-logging evaluation depends on the item only
+        _SHARD_CTX._n_prelude = 0
+    del _PRELUDE_LOG[:]
     set_logging_mode("OFF")
     try:
         _SHARD_FN(item, t)
@@ -856,7 +1006,7 @@ def make_machine(name: str, runner_factory: Callable[[], Any], rules: Dict[str, 
         def _failed(self, fail: Fail):
             self.dead = True  # model and implementation may have diverged: stop judging this history
             ctx, t, sub = self.vp_ctx, self.vp_tally, self.vp_sub
-            case = {"ops": list(self.ops)}
+            case = tag_prelude({"ops": list(self.ops)})
             bucket = f"{sub}|{fail.clause}|{fail.klass}"
             if bucket in self.vp_tolerated:
                 return
@@ -889,6 +1039,26 @@ def make_machine(name: str, runner_factory: Callable[[], Any], rules: Dict[str, 
                         if f"{sub}|{fail.clause}|{fail.klass}" not in self.vp_tolerated:
                             if ctx.findings.match(ctx.prop, sub, fail, case, ctx.predicates):
                                 ctx.judge(sub, case, fail, t0)
+                            else:
+                                fail.case = case
+                                raise fail
+                ctx0 = self.vp_ctx
+                if (not self.dead and self.ops and ctx0 is not None and ctx0.prelude_enabled and digest(self.ops)[1] % PRELUDE_EVERY == 0
+                        and getattr(ctx0, "_n_prelude_sm", 0) < PRELUDE_CAP):
+                    # the same history once more on a fresh runner after a prelude of unrelated library calls (see choose_prelude)
+                    ctx0._n_prelude_sm = getattr(ctx0, "_n_prelude_sm", 0) + 1
+                    t0 = self.vp_tally
+                    if t0 is not None:
+                        t0.extra["cases_rejudged_after_prelude"] = t0.extra.get("cases_rejudged_after_prelude", 0) + 1
+                    run_prelude_calls(choose_prelude(ctx0, self.vp_sub, {"ops": list(self.ops)}, digest([self.vp_sub, self.ops])), ctx0.module)
+                    fail = _judge_ops(replay_ops_oracle(runner_factory), list(self.ops))
+                    if fail is not None:
+                        self.dead = True
+                        sub = self.vp_sub
+                        case = tag_prelude({"ops": list(self.ops)})
+                        if f"{sub}|{fail.clause}|{fail.klass}" not in self.vp_tolerated:
+                            if ctx0.findings.match(ctx0.prop, sub, fail, case, ctx0.predicates):
+                                ctx0.judge(sub, case, fail, t0)
                             else:
                                 fail.case = case
                                 raise fail
